@@ -539,6 +539,24 @@ class Interp:
                 f = self.eng.reg.ctx_by_class.get(k)
                 if f is not None:
                     return f(self, st, cm)
+        if isinstance(cm, VVal) and str(cm.t).startswith("attr!"):
+            # `with self.<undeclared attribute>:` - an object no sidecar knows (a lock a change has just introduced, say).
+            # It is entered and left like any context manager and counted as HELD in between, so that obligations of the
+            # form "nothing is held across this blocking call" see it; nothing else is assumed about it.
+            name = "opaque:" + str(cm.t)
+
+            class _Opaque(CtxHandler):
+                def enter(self_h, it, st_):
+                    it.emit(st_, "ctx.opaque.enter", None, ctx_name=name, held=list(st_.held))
+                    st_.held.append(name)
+                    return cm
+
+                def exit(self_h, it, st_, exc):
+                    if name in st_.held:
+                        st_.held.remove(name)
+                    return False
+
+            return _Opaque()
         raise Unsupported(f"{self.site(node)}: no context-manager model for {cm!r}")
 
     # --- loops ------------------------------------------------------------------------
@@ -868,7 +886,11 @@ class Interp:
                     sub = Interp(eng, FuncInfo(ci.module, "<class>", ast.parse("pass"), None, "", False, []), depth=self.depth + 1)
                     sub.contract, sub.ctx = self.contract, self.ctx
                     return sub.eval(st, ci.consts[name])
-            # bound method
+            # bound method - or an attribute nobody declared (then an opaque value named after it; calling it is refused)
+            tcls = eng.tree_name(obj.cls)
+            if (eng.repo.cls(tcls) is not None and eng.repo.find_method(tcls, name) is None
+                    and eng.reg.find_method_stub(eng, obj.cls, name) is None and name.startswith("_") and not name.startswith("__")):
+                return VVal(z3.Const(f"attr!{obj.cls.rsplit('.', 1)[-1]}.{name}", ValS))
             return VFunc(name, bound=obj)
         if isinstance(obj, VModule):
             return self.global_by_canon(st, eng.canon(obj.name + "." + name), node)
